@@ -384,7 +384,7 @@ fn exec_par<T: 'static + Send + Sync + Clone>(chain: &[Node], partitions: usize)
                     let mut accs: Vec<Partition> = curr.into_par_iter().map(|p| local(p)).collect();
 
                     // multi-round merge with optional fanout, no cloning
-                    let f = fanout.unwrap_or(usize::MAX).max(1);
+                    let f = fanout.unwrap_or(usize::MAX).max(2);
                     while accs.len() > 1 {
                         if f == usize::MAX {
                             accs = vec![merge(accs)];
@@ -510,7 +510,7 @@ fn exec_par<T: 'static + Send + Sync + Clone>(chain: &[Node], partitions: usize)
             } => {
                 let mut accs: Vec<Partition> = curr.into_par_iter().map(|p| local(p)).collect();
 
-                let f = fanout.unwrap_or(usize::MAX).max(1);
+                let f = fanout.unwrap_or(usize::MAX).max(2);
                 while accs.len() > 1 {
                     if f == usize::MAX {
                         accs = vec![merge(accs)];
